@@ -23,6 +23,7 @@ type progSpec struct {
 	FaultPct  int
 	Layouts   []Layout
 	Rule      string
+	Must      func(thorough bool) []*Program // shapes that run completely in every tier
 	WrapEnums bool // also run each enumerated shape moved into a parameterless function (register 0 base)
 }
 
@@ -87,6 +88,16 @@ func runProgProperty(run *Run, ps progSpec) {
 	}
 	for _, pc := range corpusPrograms(ps.Prop) {
 		add(pc, pc.Note)
+	}
+	if ps.Must != nil {
+		ms := ps.Must(run.Tier == "thorough")
+		for _, p := range ms {
+			add(ProgCase{Src: p.Src, Sexp: p.Sexp, Note: "must"}, p.Skeleton)
+			for k, v := range p.Feats {
+				run.Hist["feat:"+k] += v
+			}
+		}
+		run.Extra["must_shapes_run"] = len(ms)
 	}
 	if ps.Enums != nil {
 		en := ps.Enums()
@@ -156,12 +167,18 @@ func init() {
 	reg := func(ps progSpec) {
 		props[ps.Prop+"P"] = func(run *Run) { runProgProperty(run, ps) }
 	}
-	reg(progSpec{Prop: "C01", Profiles: []string{"core"}, QuickN: 1500, ThoroughN: 40000, FaultPct: 10, Layouts: one,
+	constWindows := func(thorough bool) []*Program {
+		if thorough {
+			return EnumConstWindowShapes([]int{256, 512, 768, 1024, 2048})
+		}
+		return EnumConstWindowShapes([]int{256, 512})
+	}
+	reg(progSpec{Prop: "C01", Profiles: []string{"core"}, QuickN: 1500, ThoroughN: 40000, FaultPct: 10, Layouts: one, Must: constWindows,
 		Enums: func() []*Program {
 			return append(EnumAssignShapes(3, 3), EnumCondShapes(3)...)
 		},
-		Rule: "typed random programs of profile `core` (all operators/nestings, coercions, logical operators in every context, table constructors, multiple assignment, all loop kinds, break, goto) + bounded-exhaustive assignment shapes (k,m ≤ 3 over storage classes) and condition trees (depth ≤ 3 × contexts) + corpus; each run on the real interpreter and judged by the Lean reference semantics (emit trace, chunk results, failure line); distinct = distinct normalised AST skeletons"})
-	reg(progSpec{Prop: "C02", Profiles: []string{"calls"}, QuickN: 1200, ThoroughN: 30000, FaultPct: 5, Layouts: one,
+		Rule: "typed random programs of profile `core` (all operators/nestings, coercions, logical operators in every context, table constructors, multiple assignment, all loop kinds, break, goto) + bounded-exhaustive assignment shapes (k,m ≤ 3 over storage classes) and condition trees (depth ≤ 3 × contexts) + constant-pool windows (one block with a constant in every operand position behind n filler constants, n sweeping the 256/512(/768/1024/2048) operand boundaries) + corpus; each run on the real interpreter and judged by the Lean reference semantics (emit trace, chunk results, failure line); distinct = distinct normalised AST skeletons"})
+	reg(progSpec{Prop: "C02", Profiles: []string{"calls"}, QuickN: 1200, ThoroughN: 30000, FaultPct: 5, Layouts: one, Must: constWindows,
 		Enums: EnumCallShapes,
 		Rule: "profile `calls` (varargs, multiple results in every context, method sugar, tail calls, select, unpack) + bounded-exhaustive call shapes + corpus; oracle = Lean reference semantics"})
 	reg(progSpec{Prop: "C03", Profiles: []string{"closures"}, QuickN: 1200, ThoroughN: 30000, FaultPct: 10, Layouts: one,
